@@ -11,6 +11,8 @@ pub mod report;
 pub mod fbits;
 pub mod refmodel;
 pub mod types;
+pub mod conv_table;
+pub mod gen;
 
 pub use report::{Ctx, Monitor, Report, Violation};
 pub use rng::Rng;
